@@ -54,10 +54,15 @@ def strategy_(draw, thorough):
     batches = [fr0]
     # categorical batches with *different* category lists hit a recorded finding
     # (C07-categorical-dictionaries); most histories keep the lists equal to search past it
-    same_cats = draw(st.integers(0, 3)) > 0
+    cat_mode = draw(st.sampled_from(["same", "same", "same", "extend", "extend", "different"]))
+    same_cats = cat_mode != "different"
+    prev = fr0
     for _ in range(nb):
-        vfr = {"n": 0, "cols": [c for c in fr0["cols"] if c["name"] not in pn], "index": fr0.get("index")}
-        nf = draw(frames.compatible_frame(vfr, thorough=thorough, same_categories=same_cats))
+        vfr = {"n": 0, "cols": [c for c in prev["cols"] if c["name"] not in pn], "index": fr0.get("index")}
+        # "extend": each batch lists the categories of the batch before it and some more (a growing vocabulary; the
+        # label count may cross the width of the codes: 127, 32767)
+        ext = draw(st.sampled_from([0, 1, 3, 130, 300])) if cat_mode == "extend" else None
+        nf = draw(frames.compatible_frame(vfr, thorough=thorough, same_categories=same_cats, extend_categories=ext))
         cols = []
         it = iter(nf["cols"])
         for c in fr0["cols"]:
@@ -69,6 +74,8 @@ def strategy_(draw, thorough):
                 cols.append(next(it))
         nf["cols"] = cols
         batches.append(nf)
+        if cat_mode == "extend":
+            prev = nf
     aopts = []
     for b in batches[1:]:
         aopts.append({"rgo": draw(frames.row_group_offsets(b["n"])),
